@@ -12,7 +12,11 @@ Stim == IF started' # started
         THEN LET e == CHOOSE x \in inb \ inb' : x[2] \in Gated IN [a |-> "Release", r |-> e[2] \o ":" \o ToString(e[3])]
         ELSE [a |-> "i", r |-> ""]
 
+\* TLCFP yields 32 bits: with 10^5 states two of them collide in most runs, and a collision merges two states
+\* of the dumped graph.  Two fingerprints of differently salted values give 64 bits.
+FP2(v) == <<TLCFP(v), TLCFP(<<"salt", v>>)>>
+
 EdgeDump == IF "GEN_OUT" \in DOMAIN IOEnv
-            THEN CSVWrite("%1$s", <<ToJson([f |-> TLCFP(vars), a |-> Stim, t |-> TLCFP(vars'), o |-> Obs'])>>, IOEnv.GEN_OUT)
+            THEN CSVWrite("%1$s", <<ToJson([f |-> FP2(vars), a |-> Stim, t |-> FP2(vars'), o |-> Obs'])>>, IOEnv.GEN_OUT)
             ELSE TRUE
 =============================================================================
